@@ -276,6 +276,17 @@ func (e *Exec) evalExternal(call *ast.CallExpr, st *State, ctx *Ctx) []string {
 		return []string{"(strJoin (sitems " + arg(0) + ") " + arg(1) + ")"}
 	case "strings.Count":
 		return []string{"(strCount " + arg(0) + " " + arg(1) + ")"}
+	case "maps.Copy", "golang.org/x/exp/maps.Copy":
+		// maps.Copy(dst, src): every entry of src is stored in dst (the loop it abbreviates; a nil dst with a non-empty src panics)
+		if len(call.Args) == 2 && isTreeMap(e.typeOf(call.Args[0], ctx)) && isTreeMap(e.typeOf(call.Args[1], ctx)) {
+			d := e.eval(call.Args[0], st, ctx)
+			s0 := e.eval(call.Args[1], st, ctx)
+			e.nopanic(st, call.Pos(), "nil-map-write", "(or ((_ is VMap) "+d+") (forall ((j String)) (= (select (mapOf "+s0+") j) VAbsent)))", exprString(call))
+			r := e.fresh(st, "copied", "Val")
+			st.assume("(and ((_ is VMap) " + r + ") (forall ((j String)) (! (= (select (mc " + r + ") j) (ite (= (select (mapOf " + s0 + ") j) VAbsent) (select (mapOf " + d + ") j) (select (mapOf " + s0 + ") j))) :pattern ((select (mc " + r + ") j)))))")
+			e.assignTo(call.Args[0], r, st, ctx)
+			return nil
+		}
 	case "maps.Clone", "slices.Clone", "golang.org/x/exp/slices.Clone", "golang.org/x/exp/maps.Clone":
 		e.note(name + " returns an equal container (shallow copy); sharing is tracked by the ownership pass")
 		return []string{arg(0)}
